@@ -4,7 +4,9 @@ from __future__ import annotations
 import ast
 from typing import Dict, List, Optional, Set, Tuple
 
-from ..cfg import CFG, path_conditions, symbolic_block_paths, symbolic_returns
+from ..absint import eval_test
+from ..cfg import (CFG, path_conditions, symbolic_block_paths, symbolic_paths,
+                   symbolic_returns)
 from ..exprnorm import Poly, Rat, conj_test, norm_test, normalize
 from ..report import Run
 from ..src import AnalysisError, ClassInfo, FuncInfo, Program, call_name, stmt_key, walk_no_nested
@@ -398,48 +400,98 @@ def _stmt(fn: ast.AST, x: ast.AST) -> ast.stmt:
     return best
 
 
+def _bool_returns(m: FuncInfo, env: Dict[str, object]) -> Set[object]:
+    """the truth values a predicate method can return in a scenario (None = undecided)"""
+    out: Set[object] = set()
+    for conds, e, _r in symbolic_returns(m.node):
+        if all(eval_test(t, env) in (None, pol) for t, pol in conds):
+            out.add(None if e is None else eval_test(e, env))
+    return out
+
+
+def _is_error(st: ast.AST, cls: str = "EncodeError") -> bool:
+    if isinstance(st, ast.Raise):
+        return st.exc is not None and cls in ast.unparse(st.exc)
+    return isinstance(st, ast.Expr) and isinstance(st.value, ast.Call) and call_name(
+        st.value) == "odxraise" and cls in ast.unparse(st.value)
+
+
+def _scenario_paths(fn: ast.AST, env: Dict[str, object]):
+    """(paths of fn consistent with the scenario, does every one of them report an EncodeError,
+    does none) -- paths that end in a `raise EncodeError` count as reporting"""
+    paths = symbolic_paths(fn)
+    cons = [p for p in paths if all(eval_test(t, env) in (None, pol) for t, pol in p.conds)]
+    errs = [any(_is_error(st) for st in p.trace) for p in cons]
+    # a scenario whose every path leaves through `raise` has no path to EXIT at all
+    return cons, (all(errs) if cons else True), (not any(errs) and bool(cons))
+
+
 def _required(prog: Program, run: Run) -> None:
     R = "C08.R3"
     # lists are the filters
     for fn, attr in (("composite_codec_get_required_parameters", "is_required"),
                      ("composite_codec_get_free_parameters", "is_settable")):
         f = prog.func(f"odxtools.codec:{fn}")
-        rets = [ast.unparse(r.value) for r in walk_no_nested(f.node) if isinstance(r, ast.Return)]
-        if rets == [f"[p for p in codec.parameters if p.{attr}]"]:
+        vals = [e for _c, e, _r in symbolic_returns(f.node)]
+        good = bool(vals)
+        for e in vals:
+            while isinstance(e, ast.Call) and call_name(e) in ("list", "tuple") and \
+                    len(e.args) == 1:
+                e = e.args[0]
+            if not (isinstance(e, (ast.ListComp, ast.GeneratorExp)) and len(e.generators) == 1
+                    and isinstance(e.generators[0].target, ast.Name)):
+                good = False
+                continue
+            g = e.generators[0]
+            v = g.target.id
+            good &= ast.unparse(g.iter) == f"{f.params()[0]}.parameters" and ast.unparse(
+                e.elt) == v and [norm_test(i) for i in g.ifs] == [norm_test(ast.parse(
+                    f"{v}.{attr}", mode="eval").body)]
+        if good:
             run.ok(R, fn, f"= parameters with {attr}", f.loc)
         else:
-            run.violation(R, fn, "filter", f"returns {rets}, expected the parameters with {attr}",
-                          f.loc)
+            run.violation(R, fn, "filter",
+                          f"returns {[ast.unparse(e) if e is not None else None for e in vals]}, "
+                          f"expected the parameters with {attr}", f.loc)
     for cls in ("Request", "Response", "BasicStructure"):
         ci = prog.cls(cls)
         for prop, helper in (("required_parameters", "composite_codec_get_required_parameters"),
                              ("free_parameters", "composite_codec_get_free_parameters")):
             m = ci.methods.get(prop)
-            if m is not None and f"{helper}(self)" in ast.unparse(m.node):
+            if m is not None and {ast.unparse(e) if e is not None else None
+                                  for _c, e, _r in symbolic_returns(m.node)} == {
+                                      f"{helper}(self)"}:
                 run.ok(R, f"{cls}.{prop}", f"= {helper}(self)", m.loc)
             else:
                 run.violation(R, f"{cls}.{prop}", "delegation", f"is not {helper}(self)", ci.loc)
     # per kind: is_required vs the encoder's treatment of a missing value
-    kinds: Dict[str, str] = {}
-    for ci in prog.subclasses("Parameter", strict=True):
-        m = ci.methods.get("is_required")
-        if m is None:
-            continue
-        rets = [ast.unparse(r.value) for r in walk_no_nested(m.node) if isinstance(r, ast.Return)]
-        if len(rets) == 1:
-            kinds[ci.name] = rets[0]
     vp = prog.cls("ValueParameter")
     enc = vp.methods["_encode_positioned_into_pdu"]
-    s = ast.unparse(enc.node)
-    if kinds.get("ValueParameter") == "self._physical_default_value is None" and \
-            "physical_value = self._physical_default_value" in s and "EncodeError" in s:
+    req = vp.methods.get("is_required")
+    pv = enc.params()[1]
+    dflt = "self._physical_default_value"
+    problems = []
+    if req is None or _bool_returns(req, {dflt: None}) != {True} or \
+            _bool_returns(req, {dflt: "D"}) != {False}:
+        problems.append("is_required is not `there is no PHYSICAL-DEFAULT-VALUE`")
+    _cons, all_err, _none = _scenario_paths(enc.node, {pv: None, dflt: None})
+    if not all_err:
+        problems.append("a missing value without a default is not rejected with EncodeError")
+    cons, _all, no_err = _scenario_paths(enc.node, {pv: None, dflt: "D"})
+    if not no_err or any(ast.unparse(p.env.get(pv, ast.Name(id=pv))) != dflt for p in cons):
+        problems.append("a missing value is not replaced by PHYSICAL-DEFAULT-VALUE")
+    cons, _all, no_err = _scenario_paths(enc.node, {pv: "V", dflt: "D"})
+    if not no_err or any(pv in p.env and ast.unparse(p.env[pv]) != pv for p in cons):
+        problems.append("a supplied value is rejected or replaced")
+    if not problems:
         run.ok(R, "ValueParameter.is_required", "required iff there is no default; the encoder "
-               "substitutes the default and rejects a missing value otherwise", enc.loc)
+               "substitutes the default and rejects a missing value otherwise (4 scenarios)",
+               enc.loc)
     else:
         run.violation(R, "ValueParameter.is_required", "default",
-                      f"is_required is `{kinds.get('ValueParameter')}`; the encoder must use "
-                      "PHYSICAL-DEFAULT-VALUE for a missing value and raise EncodeError if there "
-                      "is none", vp.loc)
+                      "; ".join(problems) + ": the encoder must use PHYSICAL-DEFAULT-VALUE for "
+                      "a missing value and raise EncodeError if there is none, and is_required "
+                      "must say exactly when that happens", vp.loc)
     sp = prog.cls("SystemParameter")
     enc = sp.methods["_encode_positioned_into_pdu"]
     consts = set()
@@ -457,8 +509,12 @@ def _required(prog: Program, run: Run) -> None:
                 pre = None
     if pre is None:
         raise AnalysisError("PREDEFINED_SYSPARAM_VALUES not found")
-    if kinds.get("SystemParameter") == "self.sysparam not in PREDEFINED_SYSPARAM_VALUES" and \
-            consts == pre:
+    req = sp.methods.get("is_required")
+    table_env = {"PREDEFINED_SYSPARAM_VALUES": sorted(pre)}
+    req_ok = req is not None and all(
+        _bool_returns(req, dict(table_env, **{"self.sysparam": n})) == {n not in pre}
+        for n in sorted(pre | consts) + ["SOMETHING-ELSE"])
+    if req_ok and consts == pre:
         run.ok(R, "SystemParameter.is_required", f"required iff the SYSPARAM is not one of the "
                f"{len(pre)} predefined ones, and the encoder computes exactly those", enc.loc)
     else:
@@ -469,8 +525,9 @@ def _required(prog: Program, run: Run) -> None:
                       sp.loc)
     ts = prog.cls("TableStructParameter")
     enc = ts.methods["_encode_positioned_into_pdu"]
-    if kinds.get("TableStructParameter") == "True" and "EncodeError" in ast.unparse(
-            enc.node.body[0]):
+    req = ts.methods.get("is_required")
+    if req is not None and _bool_returns(req, {}) == {True} and _scenario_paths(
+            enc.node, {enc.params()[1]: None})[1]:
         run.ok(R, "TableStructParameter.is_required", "always required; a missing value is "
                "rejected first", enc.loc)
     else:
@@ -480,10 +537,11 @@ def _required(prog: Program, run: Run) -> None:
                 "ReservedParameter", "MatchingRequestParameter", "LengthKeyParameter",
                 "TableKeyParameter"):
         ci = prog.cls(cls)
-        if kinds.get(cls) != "False":
+        req = prog.lookup(ci, "is_required")
+        if req is None or _bool_returns(req, {}) != {False}:
             run.violation(R, f"{cls}.is_required", "constant",
                           f"{cls} never needs a user supplied value but is_required is "
-                          f"`{kinds.get(cls)}`: encoding fails with 'required parameter missing' "
+                          f"`{sorted(map(str, _bool_returns(req, {}))) if req else None}`: encoding fails with 'required parameter missing' "
                           "for a message that can be encoded", ci.loc)
             continue
         enc = prog.lookup(ci, "_encode_positioned_into_pdu")
@@ -509,9 +567,32 @@ def _required(prog: Program, run: Run) -> None:
                    "value", enc.loc)
     # DiagService.encode_request enforces the same sets
     er = prog.func("DiagService.encode_request")
-    s = ast.unparse(er.node)
-    if "self.request.required_parameters" in s and "issubset(rq_all_param_names)" in s.replace(
-            "\n", "") or ("required_parameters" in s and "self.request.parameters" in s):
+    # some rejection (odxassert / raise / odxraise) depends on the request's required parameters
+    # and on the supplied names, another on the request's parameter names and the supplied names
+    kw = er.node.args.kwarg.arg if er.node.args.kwarg else "kwargs"
+    deps: List[Set[str]] = []
+    for x in walk_no_nested(er.node):
+        cond = None
+        if isinstance(x, ast.Call) and call_name(x) == "odxassert" and x.args:
+            cond = x.args[0]
+        elif isinstance(x, ast.If) and any(isinstance(y, ast.Raise) or (
+                isinstance(y, ast.Call) and call_name(y) == "odxraise")
+                for b_ in x.body for y in ast.walk(b_)):
+            cond = x.test
+        if cond is None:
+            continue
+        full = common.resolve_locals(er.node, cond)
+        d = set()
+        for y in ast.walk(full):
+            if isinstance(y, ast.Attribute) and ast.unparse(y) == "self.request.required_parameters":
+                d.add("required")
+            if isinstance(y, ast.Attribute) and ast.unparse(y) == "self.request.parameters":
+                d.add("all")
+            if isinstance(y, ast.Name) and y.id == kw:
+                d.add("supplied")
+        deps.append(d)
+    if any({"required", "supplied"} <= d for d in deps) and any(
+            {"all", "supplied"} <= d for d in deps):
         run.ok(R, "DiagService.encode_request", "checks the request's required parameters and "
                "rejects unknown names", er.loc)
     else:
